@@ -10,6 +10,7 @@ import (
 	"encoding/json"
 	"fmt"
 	"os"
+	"runtime"
 	"testing"
 )
 
@@ -54,6 +55,22 @@ func next(label, kind string) draw {
 
 // Thorough reports whether the thorough tier's bounds are in force.
 func Thorough() bool { return rf.Thorough }
+
+// GoroutineID identifies the calling goroutine (0 is never returned natively; under the executor the harness
+// goroutine is 0 and every `go` statement gets a fresh id).
+func GoroutineID() int {
+	var buf [64]byte
+	n := runtime.Stack(buf[:], false)
+	// "goroutine 123 ["
+	id := 0
+	for _, c := range buf[len("goroutine "):n] {
+		if c < '0' || c > '9' {
+			break
+		}
+		id = id*10 + int(c-'0')
+	}
+	return id
+}
 
 // Symbolic reports whether the harness runs under the symbolic executor.
 func Symbolic() bool { return false }
